@@ -473,6 +473,37 @@ func matchesVisit(r result, cur []int8, pos int, rest []int) bool {
 	return true
 }
 
+const (
+	keyPrefixBlind  = "memdb-iterstart-ignores-prefix"
+	keyUnpositioned = "memdb-unpositioned-iterator-value-reads-empty-key"
+	keyAmbiguous    = "memdb-iterstart-on-empty-key-or-unpositioned"
+)
+
+// resolveAmbiguous attributes observations that both mechanisms explain: to the prefix-blind
+// iteration if that is evidenced on its own (then they add nothing), otherwise to the
+// unpositioned Value().
+func resolveAmbiguous(found map[string]*witness, count map[string]int, prefixBlindSeen bool) {
+	w, ok := found[keyAmbiguous]
+	if !ok {
+		return
+	}
+	n := count[keyAmbiguous]
+	delete(found, keyAmbiguous)
+	delete(count, keyAmbiguous)
+	if _, now := found[keyPrefixBlind]; now || prefixBlindSeen {
+		count[keyPrefixBlind] += n
+		return
+	}
+	if old, ok := found[keyUnpositioned]; !ok || less(w, old) {
+		found[keyUnpositioned] = w
+	}
+	count[keyUnpositioned] += n
+}
+
+func confirms(f finding, k string) bool {
+	return f.Key == k || (f.Key == keyAmbiguous && (k == keyUnpositioned || k == keyPrefixBlind))
+}
+
 // compare applies the oracle to one read operation; cur is the intended content before it.
 func compare(o *op, cur []int8, rm, rl, rc result) (fs []finding) {
 	add := func(key, format string, a ...interface{}) {
@@ -505,8 +536,16 @@ func compare(o *op, cur []int8, rm, rl, rc result) (fs []finding) {
 			}
 			bp, br := visit(cur, keys[o.P], st, false)
 			gp, gr := visit(cur, keys[o.P], st, true)
-			if !sameVisit(bp, br, gp, gr) && matchesVisit(rm, cur, bp, br) && matchesVisit(rl, cur, gp, gr) {
-				add("memdb-iterstart-ignores-prefix", "%v: MemDB visits every key >= start whatever the prefix: positioned on %s then %s; GoLevelDB positioned on %s then %s", o, qb(rm.PreKey), showPairs(rm.Pairs), qb(rl.PreKey), showPairs(rl.Pairs))
+			differ := !bytes.Equal(rm.PreKey, rl.PreKey) || !bytes.Equal(rm.PreVal, rl.PreVal) || !eqPairs(rm.Pairs, rl.Pairs)
+			explained := differ && !sameVisit(bp, br, gp, gr) && matchesVisit(rm, cur, bp, br) && matchesVisit(rl, cur, gp, gr)
+			if explained && gp < 0 && bp >= 0 && len(keys[bp]) == 0 && sameVisit(-1, br, -1, gr) {
+				// "sits on the empty key" (prefix not applied) and "sits nowhere and Value() reads the empty key"
+				// look the same from outside; resolved when the level is reported (see resolveAmbiguous)
+				add(keyAmbiguous, "%v: Key() %s / Value() %s before the first Next on MemDB, %s / %s on GoLevelDB", o, qb(rm.PreKey), qb(rm.PreVal), qb(rl.PreKey), qb(rl.PreVal))
+				return
+			}
+			if explained {
+				add(keyPrefixBlind, "%v: MemDB visits every key >= start whatever the prefix: positioned on %s then %s; GoLevelDB positioned on %s then %s", o, qb(rm.PreKey), showPairs(rm.Pairs), qb(rl.PreKey), showPairs(rl.Pairs))
 				return
 			}
 		}
@@ -523,7 +562,7 @@ func compare(o *op, cur []int8, rm, rl, rc result) (fs []finding) {
 		if !bytes.Equal(rm.PreVal, rl.PreVal) {
 			w := who(bytes.Equal(rm.PreVal, rc.PreVal), bytes.Equal(rl.PreVal, rc.PreVal))
 			if w == "memdb" && len(rm.PreKey) == 0 && len(rl.PreKey) == 0 && len(rl.PreVal) == 0 && cur[0] >= 0 && bytes.Equal(rm.PreVal, vals[cur[0]]) {
-				add("memdb-unpositioned-iterator-value-reads-empty-key", "%v: Value() of an iterator that is not positioned on any entry: MemDB returns the value stored under the empty key, %s; GoLevelDB returns %s", o, qb(rm.PreVal), qb(rl.PreVal))
+				add(keyUnpositioned, "%v: Value() of an iterator that is not positioned on any entry: MemDB returns the value stored under the empty key, %s; GoLevelDB returns %s", o, qb(rm.PreVal), qb(rl.PreVal))
 			} else {
 				add(w+"-"+name+"-value-before-next-differs", "%v: Value() before the first Next: MemDB %s, GoLevelDB %s, model %s", o, qb(rm.PreVal), qb(rl.PreVal), qb(rc.PreVal))
 			}
@@ -850,6 +889,7 @@ func search(run *ev.Run, maxDepth int) searchStats {
 		wg.Wait()
 
 		// report new violation classes of this level in a fixed order, each confirmed on fresh stores
+		resolveAmbiguous(found, foundCount, reported[keyPrefixBlind])
 		var fk []string
 		for k := range found {
 			fk = append(fk, k)
@@ -868,7 +908,7 @@ func search(run *ev.Run, maxDepth int) searchStats {
 			}
 			confirmed := false
 			for _, f := range replayFresh(h) {
-				if f.Key == k {
+				if confirms(f, k) {
 					confirmed = true
 				}
 			}
@@ -1048,6 +1088,7 @@ func sweep(run *ev.Run) sweepStats {
 		}(w)
 	}
 	wg.Wait()
+	resolveAmbiguous(found, foundCount, false)
 	var fk []string
 	for k := range found {
 		fk = append(fk, k)
@@ -1062,7 +1103,7 @@ func sweep(run *ev.Run) sweepStats {
 		}
 		confirmed := false
 		for _, f := range replayFresh(h) {
-			if f.Key == k {
+			if confirms(f, k) {
 				confirmed = true
 			}
 		}
